@@ -2,7 +2,7 @@
    Directives: ExtrOcamlBasic (bool, option, list, prod, unit, sumbool, sumor),
    ExtrOcamlString (ascii -> char, string -> char list).  No Extract Constant of our own. *)
 From Coq Require Import Extraction ExtrOcamlBasic ExtrOcamlString.
-From Ucg Require Import base.Bytes data.Val prec.Climb env.Collector.
+From Ucg Require Import base.Bytes data.Val prec.Climb env.Collector env.Out.
 From UcgGen Require Import PrecTable DocPrecTable.
 
 Extraction Language OCaml.
@@ -13,5 +13,12 @@ Definition climb_code (a : nat) (c : list (op * nat)) := option_map (@shape_of n
 Definition spec_doc (a : nat) (c : list (op * nat)) :=
   option_map (@shape_of nat) (spec_tree doc_prec (S (List.length c)) a c).
 
+(* C14: formats and values are represented by what the converter registry answers for them *)
+Definition out_run (atomic : bool) (pre : fsys) (src : bytes) (outs : list (option bytes * option bytes))
+  : fsys * ores :=
+  let '(st, r) := build_outs (option bytes) (option bytes) (fun f => f) (fun _ v => v) atomic
+                             {| files := pre; locks := [] |} src outs in
+  (files st, r).
+
 Extraction "model.ml" climb_code spec_doc dec_of_Z
-  test_run exit_code file_spec.
+  test_run exit_code file_spec out_run fs_get with_extension.
